@@ -402,3 +402,9 @@ def run(ctx):
     import_rules(ctx, 'C14.R6-matched-against-legal-moves', c01.ALL_RULES,
                  'an input is accepted iff it matches an element of the generated list: an illegal element makes an illegal input '
                  'acceptable, a missing one makes a legal input rejected', floor=6)
+    # ... and a typed LABEL names exactly one move only if the writer gives every legal move its own label: two moves sharing a label make the
+    # shared text play whichever comes first and the proper labels unacceptable (the label rules of C13)
+    from . import c13
+    import_rules(ctx, 'C14.R7-labels-name-one-move', [c13.r1_disambiguation, c13.r2_filter, c13.r3_assembly, c13.r4_source],
+                 'the notation entry point compares the typed text with the labels the writer produces for the legal moves: the input is '
+                 'accepted iff legal and plays precisely that move only if those labels are the standard, pairwise distinct ones', floor=6)
